@@ -30,3 +30,14 @@ func (r *R) P(pct int) bool { return r.N(100) < pct }
 func (r *R) Range(lo, hi int) int { return lo + r.N(hi-lo+1) }
 
 func pick[T any](r *R, xs []T) T { return xs[r.N(len(xs))] }
+
+// strHash is FNV-1a over a string (observations enter run fingerprints through it, so the
+// cross-process determinism self-test also compares rendered bytes between processes).
+func strHash(s string) uint64 {
+	h := uint64(0xcbf29ce484222325)
+	for i := 0; i < len(s); i++ {
+		h ^= uint64(s[i])
+		h *= 0x100000001b3
+	}
+	return h
+}
